@@ -14,7 +14,7 @@ Driver for C08. Case lines (DESIGN.md §2.9):
   facts    = obs live useCompiled hasStatic <route?> <route?> tree treeCompiled <route?> <route?> versionEngine vcTree
              <version> <route?> <route?> sunset allowed noRoute <detected> <path>
   route?   = 0 | 1 <hid> <pattern>
-  prog     = E <status> <size> | Q | O <size> | T <status> <size> | B <status> <size> | X <size>
+  prog     = E <status> <size> | Q | O <size> | T <status> <size> | B <status> <size> | X <size> | F <status> <size> | G <size>
   log      = <n> (S <live> | W | H <hid> <pattern> <version> | E <label> <wrapped>)^n
   recd     = 0 | 1 <status> <size>
 
@@ -22,6 +22,8 @@ Driver for C08. Case lines (DESIGN.md §2.9):
        => <tele mw> <tele app> <k> (<client status> <client size>)^k
       a history through a stack of standalone layers (tracing.Middleware, metrics.Middleware, foreign marked writers)
       in front of a plain handler (term 0) or an app with the real recorder (term 1)
+  <id> O <startAt> <n> => <sum http_requests_active> <series != 0> <sum http_requests_total>
+      n requests through an app whose OTLP metrics provider is started by the handler of request startAt
   tele     = <spansStarted> <spansEnded> <n> (<span name> <err>)^n <gauge {}> <gauge other series> <series != 0>
              <n> (<route> <status> <count> <size>)^n
 -/
@@ -52,6 +54,8 @@ def pProg : P Prog := do
   else if k == "T" then (do let s ← nat; let n ← nat; pure (Prog.twice s n))
   else if k == "B" then (do let s ← nat; let n ← nat; pure (Prog.abort s n))
   else if k == "X" then Prog.panics <$> nat
+  else if k == "F" then (do let s ← nat; let n ← nat; pure (Prog.copy s n))
+  else if k == "G" then Prog.copyOnly <$> nat
   else failure
 
 def pEv : P MEv := do
@@ -307,6 +311,19 @@ def stepM (id : String) (inp obs : List String) : String :=
     verdict id mi s "-" s!"{w.mw.started} {w.mw.ended} {w.mw.gauge0} {w.mw.gaugeA} {w.app.started} {w.app.ended} {w.app.gauge0}"
   | _, _ => s!"{id} bad-case"
 
+/-! kind O: late-initialised metrics provider -/
+def stepO (id : String) (inp obs : List String) : String :=
+  match runP (do let sa ← nat; let n ← nat; pure (sa, n)) inp,
+        runP (do let a ← int; let nz ← nat; let t ← int; pure (a, nz, t)) obs with
+  | some (startAt, n), some (active, nonzero, total) =>
+    let q : ObsApp.Req := ⟨[], [], false, 200, 0, []⟩
+    let d := ObsApp.runDeferred startAt 0 (List.replicate n q) {}
+    let mTotal : Nat := d.tele.rows.foldl (fun k r => k + r.count) 0
+    let mi := d.tele.gauge0 == active && (mTotal : Int) == total
+    let s := active == 0 && nonzero == 0
+    verdict id mi s "-" s!"{d.tele.gauge0} {mTotal}"
+  | _, _ => s!"{id} bad-case"
+
 def step (line : String) : String :=
   match splitCase line with
   | none => "? bad-line"
@@ -320,6 +337,7 @@ def step (line : String) : String :=
     | "AC" :: rest => stepAC id rest obs
     | "AW" :: rest => stepAW id rest obs
     | "M" :: rest => stepM id rest obs
+    | "O" :: rest => stepO id rest obs
     | _ => s!"{id} bad-case"
 
 end Rivaas.DriverC08
